@@ -119,6 +119,78 @@ example :
                      .push ⟨7, .remove, 0⟩, .xferFP, .push ⟨7, .update, 4⟩]
     c.out = [⟨7, .add, 1⟩, ⟨7, .update, 3⟩] ∧ c.outClosed = true ∧ c.cancelled = true := by decide
 
+/-- EXACTLY ONCE AT THE USER'S END of a backpressure `Pull` (pass-all filter), every composed schedule: when the loop
+of sender `t`'s `Send` has gone through its whole snapshot, every subscription `l` that was registered when the
+snapshot was taken and whose context is still not cancelled — live for the whole send — has this call's event exactly
+once among what the user has received and what the forwarding goroutine holds out to the user right now; never
+twice, never missing.  (`pl` maps distinct events to distinct messages, none of them a seed value; that the
+forwarder is still alive follows: it returns only after the cancel.) -/
+theorem C10_e2e_exactly_once_at_user (pl : Ev → Msg) (hinj : ∀ x y, pl x = pl y → x = y) (todo : Nat → Nat)
+    (pipes : Nat → PConfig) (sched : List SMove) (l t : Nat) (hf : ∀ l, (pipes l).Fresh)
+    (hex : (pipes l).hasEx = false) (hpid : (pipes l).hasPid = false) (hk : ∀ x, (pipes l).keep x = true)
+    (hseed : ∀ e, pl e ∉ (pipes l).fwQ) :
+    let s := srun pl ⟨init todo, pipes⟩ sched
+    (s.bus.ss t).pc = .loop → (s.bus.ss t).rest = [] → l ∈ (s.bus.ss t).snap → (s.bus.ls l).cancelled = false →
+    ((s.pipe l).out ++ (s.pipe l).fwQ).count (pl ⟨t, (s.bus.ss t).cur⟩) = 1 := by
+  intro s hpc hrest hl hcan
+  have hr : SReachable pl s := ⟨todo, pipes, sched, hf, rfl⟩
+  have hI := hr.sinv
+  have hone := C10_exactly_once s.bus hI.reach t l hpc hrest hl hcan
+  have halive : (s.pipe l).fwDone = false := by
+    cases hd : (s.pipe l).fwDone with
+    | false => rfl
+    | true =>
+      have := (hI.causal l).2.2.1 hd
+      rw [hI.link.cancelled l, hcan] at this; cases this
+  have hloss := (C10_e2e_backpressure_lossless pl todo pipes sched l (hf l) hex hpid hk).2 halive
+  rw [hloss, List.count_append, List.count_eq_zero_of_not_mem (hseed _), count_map_inj pl hinj, hone]
+
+/-- EXACTLY ONCE AT THE USER'S END of a backpressure `PullID` (code after fixes 0f3ccd4/d125dc4), every composed
+schedule: an event ABOUT THE ITEM sent while the single-item subscription was live for the whole send is exactly once
+among: received by the user, held out to the user by the PullID goroutine, in the inner Pull's forwarder on its way.
+(Both goroutines are alive: they return only after a cancel, and PullID's own return on the REMOVE cancels.) -/
+theorem C10_e2e_pullid_exactly_once_at_user (pl : Ev → Msg) (hinj : ∀ x y, pl x = pl y → x = y) (todo : Nat → Nat)
+    (pipes : Nat → PConfig) (sched : List SMove) (l t : Nat) (hf : ∀ l, (pipes l).Fresh)
+    (hex : (pipes l).hasEx = false) (hpid : (pipes l).hasPid = true) (hfix : (pipes l).fixed = true)
+    (hk : ∀ x, (pipes l).keep x = true) (hseed : ∀ e, pl e ∉ (pipes l).fwQ) :
+    let s := srun pl ⟨init todo, pipes⟩ sched
+    (s.bus.ss t).pc = .loop → (s.bus.ss t).rest = [] → l ∈ (s.bus.ss t).snap → (s.bus.ls l).cancelled = false →
+    (pl ⟨t, (s.bus.ss t).cur⟩).id = (pipes l).target →
+    ((s.pipe l).out ++ ((s.pipe l).pidQ ++ (s.pipe l).fwQ)).count (pl ⟨t, (s.bus.ss t).cur⟩) = 1 := by
+  intro s hpc hrest hl hcan hid
+  have hr : SReachable pl s := ⟨todo, pipes, sched, hf, rfl⟩
+  have hI := hr.sinv
+  have hone := C10_exactly_once s.bus hI.reach t l hpc hrest hl hcan
+  have hnc : (s.pipe l).cancelled = false := by rw [hI.link.cancelled l, hcan]
+  have halive : (s.pipe l).fwDone = false := by
+    cases hd : (s.pipe l).fwDone with
+    | false => rfl
+    | true => have := (hI.causal l).2.2.1 hd; rw [hnc] at this; cases this
+  obtain ⟨bs, ps, _, h2, h3⟩ := C10_e2e_refines pl todo pipes sched l
+  have hfixed : (s.pipe l).fixed = true := by
+    rw [pexec_fixed h2, hfix]
+  have hpalive : (s.pipe l).pidDone = false := by
+    cases hd : (s.pipe l).pidDone with
+    | false => rfl
+    | true => have := (hI.causal l).2.2.2 hfixed hd; rw [hnc] at this; cases this
+  have hloss := (C10_e2e_pullid_lossless pl todo pipes sched l (hf l) hex hpid hk).1 halive hpalive
+  have hc := congrArg (List.count (pl ⟨t, (s.bus.ss t).cur⟩)) hloss
+  simp only [List.count_append] at hc
+  rw [count_onItem _ _ hid, count_onItem _ _ hid, List.count_append,
+    List.count_eq_zero_of_not_mem (hseed _), count_map_inj pl hinj, hone] at hc
+  simp only [List.count_append]
+  omega
+
+/-- non-vacuity of the two theorems: one listener, one `Send`, the loop is through; the event is in the forwarder's
+hand (backpressure Pull) — exactly once, not yet received. -/
+example :
+    let pipes : Nat → PConfig := fun _ =>
+      { hasEx := false, exMerge := false, hasPid := false, target := 0, fixed := true, keep := fun _ => true }
+    let s := srun (fun e => ⟨e.sender, .update, e.seq⟩) ⟨init fun _ => 1, pipes⟩
+      [.bus (.lSpawn 0), .bus (.lRegister 0), .bus (.sSnapshot 0), .bus (.sAcquire 0), .deliver 0, .bus (.sRelease 0)]
+    (s.bus.ss 0).pc = .loop ∧ (s.bus.ss 0).rest = [] ∧ 0 ∈ (s.bus.ss 0).snap ∧ (s.bus.ls 0).cancelled = false ∧
+      (s.pipe 0).out = [] ∧ (s.pipe 0).fwQ = [⟨0, .update, 1⟩] := by decide
+
 /-- END TO END: a subscription WITHOUT backpressure never makes a writer wait, whatever its consumer does and
 whatever state its stages are in.  In every reachable composed state, a sender that is inside `listener.send` on a
 listener whose pipeline starts with an excess stage (`DropExcess` / `mergeCollectionExcess`) can complete its
